@@ -32,7 +32,7 @@ Vals(k) ==
       [] k = "ratio" -> {Num("2.5"), Num("3")}          \* an integer is a well-typed value for a float field
       [] k \in {"tags", "labels"} -> {[t |-> "q", e |-> <<Marker(k), Str("second")>>]}
       [] k = "items" -> {[t |-> "q", e |-> <<Marker(k), Num("7"), Null>>], EmptySeq}
-      [] k = "env" -> {[t |-> "m", kv |-> <<<<"A", Marker(k)>>>>], [t |-> "m", kv |-> <<<<"A", Marker(k)>>, <<"EMPTY", Null>>>>]}   \* a null inside a map of strings
+      [] k = "env" -> {[t |-> "m", kv |-> <<<<"A", Marker(k)>>>>], [t |-> "m", kv |-> <<<<"A", Marker(k)>>, <<"EMPTY", Null>>>>], [t |-> "m", kv |-> <<>>]}   \* (the last: `env: {}` - an empty map, not "no map")   \* a null inside a map of strings
       [] k = "nenv" -> {[t |-> "m", kv |-> <<<<"a", Marker(k)>>, <<"B", Str("second")>>>>]}
       [] k = "extra" -> {[t |-> "m", kv |-> <<<<"b", Num("1")>>, <<"a", [t |-> "q", e |-> <<Marker(k)>>]>>>>]}
       [] k \in {"anyv", "av"} -> {Marker(k), [t |-> "m", kv |-> <<<<"z", Marker(k)>>, <<"a", EmptySeq>>>>]}
